@@ -152,10 +152,11 @@ def child(tool, argv, workdir, deliver_at, signum, out_fd, second=None):
                 result.setdefault("snaps", []).append(snap)
             tr.event("post")
         util.SignalHandler.block = block
-        mod._sig.init()
         sys.stdout = io.StringIO(); sys.stderr = io.StringIO()
         try:
-            rc = mod.main(argv)
+            # through the console entry point, as the installed tool starts: whatever it does to set the handlers up
+            sys.argv = list(argv)
+            rc = mod.entry_point()
             result["exit"] = "return:%r" % (rc,)
         except SystemExit as e:
             result["exit"] = "SystemExit:%s" % (e.code,)
